@@ -147,6 +147,8 @@ func runC18(w *core.World, r *core.Report) {
 	r.Rule("R4", "State.Language is part of the persisted snapshot")
 	r.Rule("R5", "ToKey produces the translation key whenever a language is selected")
 	r.Rule("R6", "State.Language set non-nil only behind LanguageFromCode success")
+	r.Rule("R7", "Vm.Run resets FLAG_LANG before every instruction, unconditionally (documented lifetime: next instruction)")
+	r.Rule("R8", "language-scoped lookups are not memoised in the shared Resource objects")
 
 	// ---- R1 -----------------------------------------------------------------------------------
 	n1 := 0
@@ -296,6 +298,35 @@ func runC18(w *core.World, r *core.Report) {
 				"after external code selected a language the VM does not put it on the context of the following instructions (or only of some)")
 		}
 	}
+
+	// ---- R7 -----------------------------------------------------------------------------------
+	if run := w.Func("vm", "(*Vm).Run"); run != nil {
+		if fLang, ok := constOf(w, r, "state", "FLAG_LANG"); ok {
+			_, hcalls, _ := opcodeHandlers(w, r)
+			cut := core.NewCut()
+			for _, c := range flagConstCalls(run, fLang, stResetFlag) {
+				cut.AddInstr(c.(ssa.Instruction))
+			}
+			targets := map[ssa.Instruction]bool{}
+			for _, hc := range hcalls {
+				targets[hc] = true
+			}
+			isT := func(in ssa.Instruction) bool { return targets[in] }
+			bad := ""
+			if in, path := core.Reach(core.Entry(run), isT, cut); in != nil {
+				bad = "first instruction reachable without the reset: " + w.PathString(path)
+			}
+			for _, hc := range hcalls {
+				if in, path := core.Reach(core.After(hc), isT, cut); in != nil && bad == "" {
+					bad = "next instruction reachable without the reset: " + w.PathString(path)
+				}
+			}
+			r.Check(bad == "" && len(cut.Instrs) > 0, "R7", "vm.(*Vm).Run: LANG flag consumed every iteration", run.Pos(), "ResetFlag(FLAG_LANG) on every path to every handler call",
+				"the LANG flag can stay raised across instructions (its reset is skipped on some path): a later ordinary LOAD whose content happens to be a language code then switches the session's language: "+bad)
+		}
+	}
+	// ---- R8 -----------------------------------------------------------------------------------
+	checkResourceStateless(w, r, "R8")
 
 	// ---- R3 -----------------------------------------------------------------------------------
 	nw, nr := 0, 0
